@@ -28,7 +28,7 @@ ASSUMPTIONS = [
 ]
 FLOORS = {
     "quick": {"build_vs_reference": 20000, "parse_roundtrip": 20000, "datagrams": 1500,
-              "datagram_messages": 5000, "type_code_pairs": 110},
+              "datagram_messages": 5000, "type_code_pairs": 110, "datagrams_after_a_malformed_one": 300},
     "thorough": {"build_vs_reference": 1000000, "parse_roundtrip": 1000000, "datagrams": 50000,
                  "type_code_pairs": 110},
 }
@@ -99,14 +99,32 @@ def check_message(H, m, suffix, ctx):
     return ok
 
 
-def check_datagram(S, H, msgs, multicast, ctx):
-    got = []
+class _Endpoint:
+    """one long-lived datagram endpoint per shard: what a datagram delivers must not depend on what the endpoint received before"""
 
-    class P(S.SOMEIPDatagramProtocol):
-        def message_received(self, someip_message, addr, mc):
-            got.append((someip_message, addr, mc))
+    def __init__(self, S):
+        self.got = got = []
 
-    p = P()
+        class P(S.SOMEIPDatagramProtocol):
+            def message_received(self, someip_message, addr, mc):
+                got.append((someip_message, addr, mc))
+
+        self.p = P()
+
+
+def check_datagram(S, H, msgs, multicast, ctx, endpoint=None, noise=None):
+    ep = endpoint or _Endpoint(S)
+    if noise is not None:
+        # a datagram whose tail is not a message (valid leading messages, then garbage / a truncated message), from another
+        # sender: whatever the endpoint makes of it, it is not judged here (C03 does) - but it must not leak into the next one
+        try:
+            ep.p.datagram_received(noise, ("192.0.2.99", 30999), not multicast)
+        except Exception:  # noqa: B902
+            pass
+        ctx.count("datagrams_after_a_malformed_one")
+    del ep.got[:]
+    got = ep.got
+    p = ep.p
     data = b"".join(refwire.encode_someip(m) for m in msgs)
     addr = ("192.0.2.7", 30501)
     p.datagram_received(data, addr, multicast)
@@ -120,7 +138,7 @@ def check_datagram(S, H, msgs, multicast, ctx):
                       dict(expected=len(msgs), delivered=len(got),
                            delivered_ids=[(g[0].service_id, g[0].method_id, g[0].session_id) for g in got][:12],
                            expected_ids=[(m["sid"], m["mid"], m["sess"]) for m in msgs][:12]),
-                      dict(kind="dgram", msgs=msgs, multicast=multicast))
+                      dict(kind="dgram", msgs=msgs, multicast=multicast, noise=noise))
     return ok
 
 
@@ -191,6 +209,7 @@ def run(spec, ctx):
         ctx.note("suffix_classes", sclass)
     if spec["shard"] == 0:
         ctx.count("type_code_pairs", len(seen_pairs))
+    endpoint = _Endpoint(S)
     for i in range(spec["n_dgrams"]):
         k = rng.choice((1, 2, 2, 3, 3, 4, 5, 8, 12))
         msgs, keys = [], []
@@ -199,7 +218,12 @@ def run(spec, ctx):
             msgs.append(m)
             keys.append((key[-3], key[-1]))
         mc = rng.random() < 0.3
-        check_datagram(S, H, msgs, mc, ctx)
+        noise = None
+        if rng.random() < 0.3:
+            lead = b"".join(refwire.encode_someip(gen_msg(rng, 40)[0]) for _ in range(rng.choice((1, 1, 2, 3))))
+            tail, _cls = gen_suffix(rng)
+            noise = lead + (tail if _cls not in ("none", "looks-like-message") else refwire.encode_someip(gen_msg(rng, 40)[0])[:rng.randrange(1, 20)])
+        check_datagram(S, H, msgs, mc, ctx, endpoint if i % 4 else None, noise)
         ctx.case(("dgram", k, tuple(keys), mc), k > 1,
                  sample=dict(kind="datagram", messages=k, multicast=mc,
                              ids=[(m["sid"], m["mid"], len(m["payload"])) for m in msgs]) if i < 1 else None)
@@ -213,5 +237,5 @@ def replay(doc, ctx):
     if doc["kind"] == "msg":
         check_message(H, doc["msg"], doc["suffix"], ctx)
     else:
-        check_datagram(S, H, doc["msgs"], doc["multicast"], ctx)
+        check_datagram(S, H, doc["msgs"], doc["multicast"], ctx, None, doc.get("noise"))
     ctx.case(("replay",), True)
